@@ -188,6 +188,35 @@ pub proof fn lemma_paren_prefix_words(node: &SyntaxNode, pre: Seq<&SyntaxNode>)
         assert(paren_part(ch) =~= pre);
     }
 }
+pub open spec fn paren_or_space(k: SyntaxKind) -> bool { k == SyntaxKind::LeftParen || k == SyntaxKind::RightParen || k == SyntaxKind::Space }
+pub proof fn lemma_sig_concat_wordless(s: Seq<&SyntaxNode>)
+    requires forall|k: int| 0 <= k < s.len() ==> sig_leaves(#[trigger] s[k]).len() == 0,
+    ensures sig_concat(s) =~= Seq::<Seq<char>>::empty(),
+    decreases s.len(),
+{
+    reveal_with_fuel(sig_concat, 2);
+    if s.len() > 0 {
+        assert forall|k: int| 0 <= k < s.drop_last().len() implies sig_leaves(#[trigger] s.drop_last()[k]).len() == 0 by { assert(s.drop_last()[k] == s[k]); }
+        lemma_sig_concat_wordless(s.drop_last());
+        assert(sig_leaves(s.last()) =~= Seq::<Seq<char>>::empty());
+    }
+}
+/// wordless children at both edges do not contribute
+pub proof fn lemma_sig_concat_edges(ch: Seq<&SyntaxNode>, a: int, b: int)
+    requires 0 <= a <= b <= ch.len(), forall|k: int| 0 <= k < ch.len() && !(a <= k < b) ==> sig_leaves(#[trigger] ch[k]).len() == 0,
+    ensures sig_concat(ch) =~= sig_concat(ch.subrange(a, b)),
+{
+    let n = ch.len() as int;
+    lemma_sig_concat_split(ch, a);
+    let t = ch.subrange(a, n);
+    lemma_sig_concat_split(t, b - a);
+    assert(t.subrange(0, b - a) =~= ch.subrange(a, b));
+    let l = ch.subrange(0, a);
+    let r = t.subrange(b - a, t.len() as int);
+    assert forall|k: int| 0 <= k < l.len() implies sig_leaves(#[trigger] l[k]).len() == 0 by { assert(l[k] == ch[k]); }
+    assert forall|k: int| 0 <= k < r.len() implies sig_leaves(#[trigger] r[k]).len() == 0 by { assert(r[k] == ch[b + k]); }
+    lemma_sig_concat_wordless(l); lemma_sig_concat_wordless(r);
+}
 /// PF13: below a Math or Markup node there are only expressions and tokens
 #[verifier::external_body]
 pub proof fn pf_math_children(n: &SyntaxNode)
